@@ -113,6 +113,22 @@ ADD5 = {
  "C14": " Round 5: the bytes read are decoded unmodified and whole (R-C14-rawbytes).",
  "C15": " Round 5: start and length are UTF-16 code units, not code points (R-C15-units code-point clause); the Newline token and the line counter agree with the protocol's line terminators (R-C15-newline).",
 }
+ADD6 = {
+ "C01": " Round 6: the parser never reorders a list (R-C01-listorder) and no action takes apart a nested node of the type it builds (R-C01-restructure).",
+ "C02": " Round 6: a value is looked up in its own enumeration's values (R-C02-enumexact); name tables of the rule modules are keyed case-insensitively (R-C02-keys).",
+ "C03": " Round 6: R-C03-enumexact, marker search is forward only (R-C03-firstend), a name that is already present always yields an error (R-C03-dupreport).",
+ "C04": " Round 6: no Display/Debug implementation formats self with itself (R-C04-fmtself); duration constructors only run on range-checked values (R-C04-durrange, see C09).",
+ "C05": " Round 6: col is never advanced by a constant (R-C05-linecol clause 4); labels are computed from the parse of the current text (R-C05-cache); no length-changing pre-processing step (R-C05-prestep).",
+ "C06": " Round 6: R-C06-dupreport.",
+ "C07": " Round 6: initialiser kinds used for VAR_EXTERNAL references add no edge (R-C07-edges, reference-kind clause).",
+ "C08": " Round 6: every look-ahead over tokens comes after the trivia has been skipped (R-C08-lookahead).",
+ "C09": " Round 6: preconditions of the duration constructors established from their call sites (R-C09-durrange: guard shape, guarded sites with the right unit, bounded number of components); parsed reals are finite (R-C09-finite); a sign is which sign token was written (R-C09-choiceid).",
+ "C10": " Round 6: list delimiters are written once around the list (R-C10-listdelim); all integer readers parse into one type (R-C10-intwidth).",
+ "C11": " Round 6: R-C11-fileid.",
+ "C12": " Round 6: R-C12-fmtself, R-C12-prestep, R-C12-durrange.",
+ "C13": " Round 6: only the files of a directory are listed, and is_file() is the only test on a readable entry (R-C13-dir).",
+ "C15": " Round 6: an encoded token list is never edited in place (R-C15-nodrop).",
+}
 NA_REASON = "check not built yet (round 1 in progress); see DESIGN.md section 3 for the planned static rules"
 props = [json.loads(l) for l in open("/verif/properties.jsonl")]
 checks = []
@@ -127,7 +143,7 @@ for p in props:
         "evidence_file": "/verif/evidence/%s.json" % p["id"],
         "replay_cmd_template": "./check %s --replay {path}" % p["id"],
         "engine": "mirfacts+rules",
-        "level_claimed": {"category": "other", "text": c["text"] + ADD.get(p["id"], "") + ADD3.get(p["id"], "") + ADD4.get(p["id"], "") + ADD5.get(p["id"], ""), "design_ref": c["design"] + ", R2, R3, R4, R5"},
+        "level_claimed": {"category": "other", "text": c["text"] + ADD.get(p["id"], "") + ADD3.get(p["id"], "") + ADD4.get(p["id"], "") + ADD5.get(p["id"], "") + ADD6.get(p["id"], ""), "design_ref": c["design"] + ", R2, R3, R4, R5, R6"},
         "level_note": NOTE,
         "technique": c["technique"],
     })
